@@ -6,7 +6,7 @@
 //   (3) behaviourally on a probe (covariances on probe pairs, neighbourhood selections on a probe Db, inside() on a lattice...),
 //   (4) second serialize reproduces the first text byte for byte,
 //   (5) dumpToNF / createFromNF: file = class tag + stream text, reloaded object equivalent; a file is refused by every other class.
-// One finding key per mechanism: roundtrip:<Class>:<group of the first differing getter>.
+// One finding key per mechanism: roundtrip:<Class>:<group of the first differing getter>, or roundtrip:<Class>:crash:<stage>.
 #include "vf/corpus.hpp"
 #include "vf/fork.hpp"
 #include <sys/stat.h>
@@ -142,7 +142,7 @@ static void roundtrip(Ctx& C, const std::string& cname)
     if (!(r.kind == ChildResult::EXITED && r.code == 0))
     {
       C.outcome("crash-in-" + stage);
-      C.violation("roundtrip:" + def.name + ":crash:" + stage + ":" + r.describe(),
+      C.violation("roundtrip:" + def.name + ":crash:" + stage,   // the signal / exit status is in the text only (it depends on the heap layout)
                   "the process died (" + r.describe() + ") in stage '" + stage + "' of the round trip [case " + idx_str(sp, idx) + "]", kase);
     }
   });
